@@ -10,7 +10,7 @@ use std::io::Cursor;
 macro_rules! fixed_write {
     ($name:ident, $n:expr, $len:expr) => {
         #[kani::proof]
-        #[kani::unwind(260)]
+        #[kani::unwind(490)]
         #[kani::stub(alloc::fmt::format, stub_format)]
         #[kani::stub(insim_core::string::codepages::to_lossy_bytes, stub_to_lossy_bytes)]
         fn $name() {
@@ -61,7 +61,7 @@ fixed_write!(c11_fixed128_len129, 128, 129);
 macro_rules! var_write {
     ($name:ident, $max:expr, $len:expr) => {
         #[kani::proof]
-        #[kani::unwind(260)]
+        #[kani::unwind(490)]
         #[kani::stub(alloc::fmt::format, stub_format)]
         #[kani::stub(insim_core::string::codepages::to_lossy_bytes, stub_to_lossy_bytes)]
         fn $name() {
@@ -96,12 +96,17 @@ var_write!(c11_var128_len127, 128, 127);
 var_write!(c11_var128_len130, 128, 130);
 var_write!(c11_var240_len239, 240, 239);
 var_write!(c11_var240_len241, 240, 241);
+var_write!(c11_var240_len253, 240, 253);
+var_write!(c11_var240_len256, 240, 256);
+var_write!(c11_var240_len480, 240, 480);
+var_write!(c11_var128_len253, 128, 253);
+var_write!(c11_var128_len256, 128, 256);
 
 /// the free-text packets sent to LFS end in a NUL byte (MST, MSX, MSL: fixed width; MTC: variable)
 macro_rules! terminated {
     ($name:ident, $ty:ty, $field:ident, $len:expr, $size:expr) => {
         #[kani::proof]
-        #[kani::unwind(260)]
+        #[kani::unwind(490)]
         #[kani::stub(alloc::fmt::format, stub_format)]
         #[kani::stub(insim_core::string::codepages::to_lossy_bytes, stub_to_lossy_bytes)]
         fn $name() {
@@ -135,7 +140,7 @@ terminated!(c11_mtc_len128, insim::insim::Mtc, text, 128, 134);
 macro_rules! fixed_read {
     ($name:ident, $n:expr) => {
         #[kani::proof]
-        #[kani::unwind(260)]
+        #[kani::unwind(490)]
         #[kani::stub(alloc::fmt::format, stub_format)]
         #[kani::stub(insim_core::string::codepages::to_lossy_string, stub_to_lossy_string)]
         fn $name() {
